@@ -12,6 +12,7 @@ pub mod c07;
 pub mod c08;
 pub mod c12;
 pub mod c13;
+pub mod c14;
 pub mod c15;
 pub mod c16;
 pub mod c18;
@@ -20,8 +21,8 @@ use crate::mem::{run_jobs, Job, RunCfg, Tier};
 use crate::prng::Rng;
 use crate::report::Partial;
 
-pub const PROPERTIES: [&str; 13] =
-    ["C01", "C02", "C03", "C04", "C05", "C06", "C07", "C08", "C12", "C13", "C15", "C16", "C18"];
+pub const PROPERTIES: [&str; 14] =
+    ["C01", "C02", "C03", "C04", "C05", "C06", "C07", "C08", "C12", "C13", "C14", "C15", "C16", "C18"];
 
 pub fn run(prop: &str, cfg: &RunCfg, rng: &mut Rng) -> Option<(String, Partial)> {
     let tier: Tier = cfg.tier;
@@ -36,6 +37,7 @@ pub fn run(prop: &str, cfg: &RunCfg, rng: &mut Rng) -> Option<(String, Partial)>
         "C08" => c08::jobs(tier, rng),
         "C12" => c12::jobs(tier, rng),
         "C13" => c13::jobs(tier, rng),
+        "C14" => c14::jobs(tier, rng),
         "C15" => c15::jobs(tier, rng),
         "C16" => c16::jobs(tier, rng),
         "C18" => c18::jobs(tier, rng),
